@@ -47,3 +47,10 @@ pub fn trusted_len_underrun(declared: usize, actual: usize) -> ! {
 pub unsafe fn poison<T>(ptr: *mut T, len: usize) {
     unsafe { std::ptr::write_bytes(ptr as *mut u8, POISON_BYTE, len * std::mem::size_of::<T>()) }
 }
+
+/// H4: the private `range` / `linspace` generator iterators, re-exported so that a monitor can
+/// observe their size hints under partial consumption (the public API only ever consumes them
+/// through the collecting constructors).
+pub mod generators {
+    pub use crate::linspace::{linspace, range, Linspace};
+}
